@@ -51,6 +51,7 @@ def _gen_one(job):
     else:
         reach = []
     return {
+        "pending": getattr(rep, "pending", []),
         "qualname": qualname, "kind": kind, "status": rep.status, "reason": rep.reason, "paths": rep.paths,
         "exit_paths": rep.exit_paths, "vcs": vcs, "reach": reach, "assumptions": sorted(rep.assumptions),
         "dropped": sorted(rep.dropped), "gen_s": round(time.time() - t0, 3),
@@ -81,6 +82,7 @@ def run(repo_dir, contract_modules, functions, lemmas=(), timeout_ms=20000, slow
     for mname in contract_modules:
         importlib.import_module(mname)
     jobs = []
+    sharded = []
     for f in functions:
         c = REGISTRY.get(f)
         n = len(c.cases_) if (c is not None and c.cases_) else 1
@@ -89,21 +91,33 @@ def run(repo_dir, contract_modules, functions, lemmas=(), timeout_ms=20000, slow
             for a in range(0, n, step):
                 jobs.append((repo_dir, list(contract_modules), f, "function", (a, min(n, a + step))))
         elif c is not None and c.shards_ > 1:
-            for k in range(c.shards_):
-                jobs.append((repo_dir, list(contract_modules), f, "function", None, (k, c.shards_)))
+            sharded.append((f, c.shards_))
         else:
             jobs.append((repo_dir, list(contract_modules), f, "function"))
     jobs += [(repo_dir, list(contract_modules), l, "lemma") for l in lemmas]
-    jobs.sort(key=lambda j: 0 if (len(j) > 5 and j[5]) else 1)     # the sharded (heavy) functions start first
-    if len(jobs) <= 1:
-        reports = [_gen_one(j) for j in jobs]
-    else:
-        with ProcessPoolExecutor(max_workers=min(workers, len(jobs))) as ex:
-            reports = list(ex.map(_gen_one, jobs))
+    with ProcessPoolExecutor(max_workers=workers) as ex:
+        # heavy functions: ONE process computes the frontier of the decision tree, then the pending subtrees are dealt
+        # out explicitly (no reliance on the workers re-deriving the same frontier)
+        front = [ex.submit(_gen_one, (repo_dir, list(contract_modules), f, "function", None, ("frontier", n))) for f, n in sharded]
+        futs = [ex.submit(_gen_one, j) for j in jobs]
+        reports = []
+        more = []
+        for (f, n), fu in zip(sharded, front):
+            rep0 = fu.result()
+            reports.append(rep0)
+            pend = rep0.pop("pending", [])
+            for k in range(n):
+                part = pend[k::n]
+                if part:
+                    more.append(ex.submit(_gen_one, (repo_dir, list(contract_modules), f, "function", None, ("subtrees", part))))
+        reports += [fu.result() for fu in futs]
+        reports += [fu.result() for fu in more]
+    for rep in reports:
+        rep.pop("pending", None)
     if os.environ.get("VERIF_TIMING"):
         import sys
-        for j, rep in zip(jobs, reports):
-            print("TIMING gen", rep["qualname"], j[4:], rep["gen_s"], rep["paths"], len(rep["vcs"]), file=sys.stderr)
+        for rep in reports:
+            print("TIMING gen", rep["qualname"], rep["gen_s"], rep["paths"], len(rep["vcs"]), file=sys.stderr)
     merged = {}
     for rep in reports:
         k = (rep["qualname"], rep["kind"])
